@@ -22,7 +22,10 @@ type C09Plan struct {
 	Bypass bool   `json:"bypass"`
 }
 
-type c09 struct{ tuples []C09Plan }
+type c09 struct {
+	noPrepare
+	tuples []C09Plan
+}
 
 func init() {
 	p := &c09{}
